@@ -423,8 +423,12 @@ inline void initStripeState(
       stripeEnd = end;
     } else {
       Wide perStripe = totalRange / static_cast<Wide>(numWorkers);
-      Wide endWide = static_cast<Wide>(start) + static_cast<Wide>(i + 1) * perStripe;
-      stripeEnd = alignDownStripe(static_cast<IntegerT>(endWide), state.granularity);
+      // Align the stripe length (not the absolute index) down to the granularity, so that every
+      // stripe boundary is start + k * granularity and only the final chunk of the whole range can
+      // be a partial granularity unit.
+      Wide rel = static_cast<Wide>(i + 1) * perStripe;
+      rel -= rel % static_cast<Wide>(state.granularity);
+      stripeEnd = static_cast<IntegerT>(static_cast<Wide>(start) + rel);
       if (stripeEnd <= cursor) {
         stripeEnd = cursor;
       }
